@@ -1,7 +1,7 @@
 /-
   SlacModel.TimeRfc — `date_to_rfc3339` and `date_to_rfc2822` of src/stdlib/time.rs for a process whose local
-  time zone is UTC (the correspondence check runs with TZ=UTC).  The parsing functions `date_from_rfc2822/3339`
-  stay unmodelled.
+  time zone is UTC (the correspondence check runs with TZ=UTC), and the parsing functions `date_from_rfc2822/3339`
+  (chrono's parsers are in SlacModel.TimeParse: `rfc2822Utc`, `rfc3339Utc`), also for a UTC local zone.
 
   time.rs `naive_to_fixed`: `Local.from_local_datetime(&dt).single().map(fixed_offset)`.  For a zone without
   transitions (chrono offset/local/unix.rs + tz_info/timezone.rs `find_local_time_type_from_local`: no transitions
@@ -82,6 +82,27 @@ def dateToRfc2822 : List (Value N) → Res N
       if 0 ≤ t.year ∧ t.year ≤ 9999 then .ok (.str (rfc2822 t))
       else .error (custom "year out of range for RFC 2822")
   | _ => .error (.wrongParameterCount 1)
+
+
+/-! ### `date_from_rfc3339`, `date_from_rfc2822` -/
+
+/-- time.rs `fixed_to_naive`: `Local.from_utc_datetime(&dt.naive_utc()).naive_local()`.  THIS is where the local
+    time zone enters: the result is the UTC date-time shifted by the local offset valid at that instant.  With
+    `TZ=UTC` the shift is 0.  (In a zone with a positive offset `naive_local()` panics when the shifted value
+    leaves chrono's range — only reachable from `date_from_rfc2822` with a year near 262142.) -/
+def fixedToNaive (utc : NDT) : NDT := utc
+
+/-- `date_from_rfc3339` under TZ=UTC -/
+def dateFromRfc3339 : List (Value N) → Option (Res N)
+  | [.str s] => Time.finish ((rfc3339Utc s).map fun u => (fixedToNaive u).millis)
+  | [_] => some (.error .wrongParameterType)
+  | _ => some (.error (.wrongParameterCount 1))
+
+/-- `date_from_rfc2822` under TZ=UTC -/
+def dateFromRfc2822 : List (Value N) → Option (Res N)
+  | [.str s] => Time.finish ((rfc2822Utc s).map fun u => (fixedToNaive u).millis)
+  | [_] => some (.error .wrongParameterType)
+  | _ => some (.error (.wrongParameterCount 1))
 
 /-! ### TESTS (kernel-evaluated examples on the driver's doubles; expected texts per chrono 0.4.45) -/
 section Tests
